@@ -380,9 +380,22 @@ class Fn:
         if len(ms) != 1:
             raise ExtractError(f"lost anchor in {self.qual}: drop_prefix_before `{anchor[:60]}` matched {len(ms)}x")
         dropped = ms[0].start()
+        self.dropped_prefix = self.body[:ms[0].start()]
         self.body = '{\n' + self.body[ms[0].start():]
         self.rewrites.append(('R13', f'function body starts at `{" ".join(anchor.split())}` ({dropped} chars of prefix dropped)', why))
         return self
+
+    def prefix_locals_used(self, known=()):
+        """R13: the plain `let NAME = INIT;` locals of a dropped prefix that the kept slice mentions (and `known` does not list), with their initialisers --
+        the caller turns them into parameters of the slice (an unconstrained value of the local's type) or reports the slice as out of reach"""
+        out = []
+        for m in re.finditer(r'\blet\s+(?:mut\s+)?([a-z_]\w*)\s*(?::\s*([^=;]+?))?\s*=\s*([^;]*);', getattr(self, 'dropped_prefix', '')):
+            nm = m.group(1)
+            if nm in known or nm in [o[0] for o in out]:
+                continue
+            if re.search(r'(?<![.\w])' + re.escape(nm) + r'\b', self.body):
+                out.append((nm, (m.group(2) or '').strip(), m.group(3).strip()))
+        return out
 
     def truncate_after(self, anchor, tail, why):
         """R13 prefix extraction: keep the body up to and including `anchor`, drop the rest, end with `tail`.
